@@ -50,7 +50,7 @@ class PROP(PropCheck):
         return [Case(S.HEADER + s, kind="corpus") for s in CORPUS]
 
     def cases(self, rng, tier, scale=1):
-        n = (self.quick_n if tier == "quick" else 40000) * scale
+        n = (self.quick_n if tier == "quick" else 8000) * scale
         out = []
         for i in range(n):
             g = S.Sem(rng, self.weights, maxd=rng.randint(2, 3 if tier == "quick" else 5))
